@@ -83,6 +83,9 @@ func (w *stampWriter) Write(b []byte) (int, error) {
 	return len(b), nil
 }
 
+// CurrentFile, when set, receives the scenario before every run.
+var CurrentFile string
+
 var debugLeak = os.Getenv("VERIF_DEBUG_LEAK") != ""
 
 var runMu sync.Mutex // cwd and environment are process-global
@@ -157,6 +160,11 @@ func RunA(t *testing.T, h Hooks, sc *Scenario, site *Site) *Result {
 		os.Setenv("VERIF_SHIM_STATE", state)
 	}
 
+	if CurrentFile != "" {
+		// crash attribution: a panic in a goroutine the runner cannot
+		// recover kills the worker; the driver then replays this file
+		sc.Save(CurrentFile)
+	}
 	pipe.SimCommandStage = run.Factory
 	defer func() { pipe.SimCommandStage = nil }()
 
